@@ -313,7 +313,7 @@ def main():
         hit = caught.get(name, False)
         run.canaries.append(dict(name=name, detected=hit))
         if not hit:
-            run.inconc('canary not detected: %s' % name)
+            run.canary_miss(name, caught)
     run.bounds = dict(quick='ranks 2-3, extents n_i in [p_i, N] with N=4 (2-D) / 3 (3-D), grids (2),(3),(1,2),(2,1),(2,2)',
                       thorough='ranks 2-4, N=6/4/3, grids up to 3 processes per direction (see configs())',
                       this_run=run.tier)
